@@ -82,7 +82,7 @@ func genHdrVal(rng *Rng, hostile bool) string {
 	for i := 0; i < n; i++ {
 		s += rng.Pick(delimAlphabet)
 	}
-	return s
+	return strings.Trim(s, " \t") // field values never carry leading or trailing white space on the wire
 }
 
 func genHdrs(rng *Rng, hostile bool, multi bool) []KV {
@@ -91,7 +91,7 @@ func genHdrs(rng *Rng, hostile bool, multi bool) []KV {
 	for i := 0; i < n; i++ {
 		k := rng.Pick(hdrNames)
 		if hostile && rng.Chance(10, 100) {
-			k = "X-" + strings.ToUpper(rng.Pick([]string{"a", "b"})) + rng.Pick([]string{"", ":", "|"})
+			k = "X-" + strings.ToUpper(rng.Pick([]string{"a", "b"})) + rng.Pick([]string{"", "|", "~"})
 		}
 		out = append(out, KV{k, genHdrVal(rng, hostile && rng.Chance(60, 100))})
 		if multi && rng.Chance(30, 100) {
